@@ -56,6 +56,10 @@ pub struct Case {
     /// the two output directories already hold stale files under the names the copy will use
     #[serde(default)]
     pub stale: bool,
+    /// the first delegated role also lists the first top-level target's name, with other content:
+    /// an entry that no lookup may ever serve (the top-level entry comes first in pre-order)
+    #[serde(default)]
+    pub shadow: bool,
 }
 
 const NAMES: [&str; 8] = ["a.txt", "b.bin", "dir/c.txt", "deep/er/d.dat", "x/../resolved.txt", "dots..name", "tilde~1", "plus+sign"];
@@ -70,6 +74,7 @@ struct Source {
     /// raw name -> content, for every listed target
     all_targets: BTreeMap<String, Vec<u8>>,
     final_root: u64,
+    shadowed: bool,
 }
 
 fn source(case: &Case) -> Source {
@@ -145,8 +150,34 @@ fn source(case: &Case) -> Source {
         }
     }
     collect(&nodes, &mut all2);
+    let shadow: Option<(String, String, Vec<u8>)> = match (case.shadow, s.targets.first(), nodes.first()) {
+        (true, Some((tname, tcontent)), Some(node)) => {
+            let mut other = tcontent.clone();
+            other.extend_from_slice(b" -- listed by a role that was never delegated this name");
+            Some((node.name.clone(), tname.clone(), other))
+        }
+        _ => None,
+    };
     s.delegs = nodes;
-    Source { built: s.build(), all_targets: all2, final_root: n }
+    let mut built = match &shadow {
+        None => s.build(),
+        Some((role, tname, other)) => s.build_full(
+            &|r, signed| {
+                if r == role {
+                    signed["targets"][tname.as_str()] = forge::target_entry(other);
+                }
+            },
+            &|_, _, _| None,
+        ),
+    };
+    if let Some((_, tname, other)) = &shadow {
+        // under consistent snapshots the shadowed content is available under its own digest-prefixed
+        // name, so that a client that picks the wrong entry can actually fetch it
+        if case.consistent {
+            built.target_files.insert(format!("{}.{}", sha256_hex(other), resolve(tname)), other.clone());
+        }
+    }
+    Source { built, all_targets: all2, final_root: n, shadowed: shadow.is_some() }
 }
 
 fn snapshot_tree(root: &Path) -> BTreeMap<String, Vec<u8>> {
@@ -329,6 +360,9 @@ pub fn prop_with(case: &Case, known_flush: bool) -> Outcome {
     if src.final_root > 1 {
         o.label("root-chain-in-source");
     }
+    if src.shadowed {
+        o.label("shadowed-entry");
+    }
     if !src.built.docs.keys().all(|k| ["timestamp", "snapshot", "targets"].contains(&k.as_str()) || k.starts_with("root:")) {
         o.label("has-delegated-roles");
     }
@@ -489,9 +523,10 @@ pub fn prop_with(case: &Case, known_flush: bool) -> Outcome {
 }
 
 fn case_strategy() -> impl Strategy<Value = Case> {
-    (case_strategy_lib(), prop::bool::weighted(0.08), prop::bool::weighted(0.3)).prop_map(|(mut c, cli, stale)| {
+    (case_strategy_lib(), prop::bool::weighted(0.08), prop::bool::weighted(0.3), prop::bool::weighted(0.3)).prop_map(|(mut c, cli, stale, shadow)| {
         c.via_cli = cli;
         c.stale = stale;
+        c.shadow = shadow;
         c
     })
 }
@@ -507,7 +542,7 @@ fn case_strategy_lib() -> impl Strategy<Value = Case> {
         any::<bool>(),
         prop_oneof![4 => Just(Bad::None), 1 => any::<u16>().prop_map(Bad::Corrupt), 1 => any::<u16>().prop_map(Bad::Oversize), 1 => any::<u16>().prop_map(Bad::Missing)],
     )
-        .prop_map(|(consistent, roots, rotate_online, targets, roles, subset, root_chain, bad)| Case { consistent, roots, rotate_online, targets, roles, subset, root_chain, bad, via_cli: false, stale: false })
+        .prop_map(|(consistent, roots, rotate_online, targets, roles, subset, root_chain, bad)| Case { consistent, roots, rotate_online, targets, roles, subset, root_chain, bad, via_cli: false, stale: false, shadow: false })
 }
 
 pub fn check(ctx: &Ctx) -> Vec<PartReport> {
@@ -517,7 +552,7 @@ pub fn check(ctx: &Ctx) -> Vec<PartReport> {
         ctx,
         PartSpec {
             name: "caches",
-            rule: "random forged source repositories (root chain of 1..3 versions with or without online-key rotation, 0..5 top-level targets incl. sub-directories and resolvable names, 0..3 delegated roles with odd names such as 'with space', 'a/b', '../up', 'dot.json', '%2F', accented, 'q?#', optionally nested), served through the scripted transport; subset of targets in {all, a random subset, none, an unknown name}; with/without root chain; optionally one requested source target corrupted, oversized or missing; in 30 % of the cases the output directories already hold an outdated copy (same file names; longer, shorter or equally long other bytes). Oracle: files appear only inside the two directories; a damaged source target makes cache() fail and its bytes never appear under the target's final name; otherwise cache() succeeds, every root version 1..trusted is present and equal to the source when the chain was requested, the copy loads through FilesystemTransport immediately after cache() returned, with equal role versions and delegated roles, every requested target reads back byte-identical and nothing unrequested lies in the targets directory. Non-trivial: damaged source, root chain, subset other than all, or delegated roles; distinct = case",
+            rule: "random forged source repositories (root chain of 1..3 versions with or without online-key rotation, 0..5 top-level targets incl. sub-directories and resolvable names, 0..3 delegated roles with odd names such as 'with space', 'a/b', '../up', 'dot.json', '%2F', accented, 'q?#', optionally nested), served through the scripted transport; subset of targets in {all, a random subset, none, an unknown name}; with/without root chain; optionally one requested source target corrupted, oversized or missing; in 30 % of the cases a delegated role additionally lists a top-level target's name with other content (an entry no lookup may serve); in 30 % of the cases the output directories already hold an outdated copy (same file names; longer, shorter or equally long other bytes). Oracle: files appear only inside the two directories; a damaged source target makes cache() fail and its bytes never appear under the target's final name; otherwise cache() succeeds, every root version 1..trusted is present and equal to the source when the chain was requested, the copy loads through FilesystemTransport immediately after cache() returned, with equal role versions and delegated roles, every requested target reads back byte-identical and nothing unrequested lies in the targets directory. Non-trivial: damaged source, root chain, subset other than all, or delegated roles; distinct = case",
             mode: Mode::Random { cases: n, strategy: Box::new(|| bx(case_strategy())) },
             prop: Box::new(move |c: &Case| prop_with(c, known)),
             require: vec![
@@ -529,6 +564,7 @@ pub fn check(ctx: &Ctx) -> Vec<PartReport> {
                 ("unknown-target-refused", n as u64 / 40),
                 ("via:tuftool-clone", n as u64 / 30),
                 ("stale-copy-present", n as u64 / 6),
+                ("shadowed-entry", n as u64 / 12),
             ],
         },
     )]
